@@ -181,7 +181,15 @@ func runC14(c *Ctx) {
 			}
 			if n > 0 && r.Intn(8) == 0 {
 				k := r.Intn(n)
-				switch r.Intn(5) {
+				switch r.Intn(9) {
+				case 5:
+					list[k] = list[k] + hex.EncodeToString(r.Bytes(12)) // 32 bytes (a SHA-256 sized entry)
+				case 6:
+					list[k] = list[k] + list[k] // 40 bytes
+				case 7:
+					list[k] = "" // empty entry
+				case 8:
+					list[k] = list[k][:2] // one byte
 				case 0:
 					list[k] = list[k][:39] // odd length
 				case 1:
